@@ -399,7 +399,7 @@ func TestC04(t *testing.T) {
 	r := mon.Start(t, "C04")
 	defer r.Close()
 	fixtures := fileFixtures(newRand(r.SeedFor("fixtures")), !r.Quick())
-	per := r.Pick(150, 3000)
+	per := r.Pick(500, 20000)
 	for _, f := range fixtures {
 		f := f
 		for i := 0; i < per; i++ {
